@@ -14,6 +14,7 @@ import (
 	"strconv"
 	"strings"
 	"sync"
+	"sync/atomic"
 	"time"
 )
 
@@ -111,6 +112,9 @@ func Main(engine string, props map[string]PropEngine) {
 		b, _ := json.MarshalIndent(r, "", " ")
 		fmt.Println(string(b))
 	default:
+		if f, ok := Extras[os.Args[1]]; ok {
+			os.Exit(f(os.Args[2:]))
+		}
 		fatalf("unknown subcommand %s", os.Args[1])
 	}
 }
@@ -130,13 +134,13 @@ func worker(prop, tier string, pe PropEngine, base uint64, widx, nw, total, star
 	out := bufio.NewWriterSize(os.Stdout, 1<<16)
 	var mu sync.Mutex
 	cur := -1
-	var curStart time.Time
 	go func() {
 		for {
 			time.Sleep(500 * time.Millisecond)
 			mu.Lock()
-			c, st := cur, curStart
+			c := cur
 			mu.Unlock()
+			st := time.Unix(0, atomic.LoadInt64(&lastTick))
 			if c >= 0 && time.Since(st) > HangLimit {
 				mu.Lock()
 				r := &Result{Index: c, Seed: SeedOf(base, prop, c), Notes: map[string]string{"hang": "watchdog"}, Evaluations: 1}
@@ -159,7 +163,8 @@ func worker(prop, tier string, pe PropEngine, base uint64, widx, nw, total, star
 			continue
 		}
 		mu.Lock()
-		cur, curStart = idx, time.Now()
+		cur = idx
+		Tick()
 		mu.Unlock()
 		r := pe.RunSeed(tier, SeedOf(base, prop, idx), idx)
 		mu.Lock()
@@ -213,7 +218,11 @@ func batch(engine, prop, tier string, pe PropEngine) int {
 			start := 0
 			for attempt := 0; attempt < 50; attempt++ {
 				cmd := exec.Command(self, "worker", prop, tier, fmt.Sprint(base), fmt.Sprint(w), fmt.Sprint(nw), fmt.Sprint(total), fmt.Sprint(start))
-				cmd.Env = append(os.Environ(), "GOMAXPROCS=2")
+				gmp := "2"
+				if v := os.Getenv("VERIF_GOMAXPROCS"); v != "" {
+					gmp = v
+				}
+				cmd.Env = append(os.Environ(), "GOMAXPROCS="+gmp)
 				cmd.Stderr = errOut
 				pipe, err := cmd.StdoutPipe()
 				if err != nil {
@@ -489,3 +498,13 @@ func (a *aggregate) writeEvidence(m Meta, prop, tier string, base uint64, total,
 // errOut is the harness's own stderr, captured before an engine redirects the
 // process-wide os.Stderr away from simulated processes' error text.
 var errOut = os.Stderr
+
+// Extras are engine-specific subcommands (self-tests).
+var Extras = map[string]func(args []string) int{}
+
+var lastTick int64
+
+// Tick tells the watchdog that the simulated run is making progress. Engines
+// call it once per evaluation, so the watchdog bounds a single execution of
+// the code under test, not a whole sweep.
+func Tick() { atomic.StoreInt64(&lastTick, time.Now().UnixNano()) }
